@@ -218,7 +218,11 @@ def run_concrete(contract_module, cls_name, shape_idx, concrete):
 
         for ob in ctx.pending:
             c = z3.simplify(ob.clause)
-            out["checks"].append((ob.name, bool(z3.is_true(c))))
+            if z3.is_true(c) or z3.is_false(c):
+                out["checks"].append((ob.name, bool(z3.is_true(c))))
+            else:
+                # a clause over ghost symbols (e.g. a block argument's run-time value): true iff valid
+                out["checks"].append((ob.name, ctx.discharge(ob, use_cvc5=False) == "proved"))
         if I.getattr(C, "compare_ret", True):
             out["ret"] = norm_interp(ret)
     except PathAbort:
